@@ -122,6 +122,7 @@ def _engine_class():
         vanish_at = None
         it_counter = 0
         started_at = None
+        kill_delivered = False
 
         def build_loss(self):
             def toy_loss(source, target, reduction="mean", reconstruction_size=None):
@@ -133,12 +134,14 @@ def _engine_class():
 
         def _do_iteration(self, data, loss_fns=None, regularizer_fns=None):
             it = self.it_counter
-            if self.vanish_at == it:
+            if self.vanish_at == it and it > self.started_at:   # "vanishes after iteration it-1" of *this* process
                 raise Vanish()
             if self.kill_at == it and self.kill_where == "pre":
+                self.kill_delivered = True
                 os.kill(os.getpid(), signal.SIGINT)      # the real handler raises ProcessKilledException here
             out = super()._do_iteration(data, loss_fns, regularizer_fns)
             if self.kill_at == it and self.kill_where == "post":
+                self.kill_delivered = True
                 os.kill(os.getpid(), signal.SIGINT)      # after backward, before the optimiser step
             self.it_counter += 1
             return out
@@ -266,6 +269,12 @@ def run_process(expdir, c, *, total=None, kill_at=None, kill_where="pre", vanish
         code = e.code
     except Vanish:
         code = "vanished"
+    except Exception as e:  # noqa: BLE001
+        if not eng.kill_delivered:
+            raise
+        # the process was already dying: whatever the kill path raises after its save is just another way to die
+        # (observed: ZeroDivisionError in CommonMetricPrinter.write when killed in the very first iteration)
+        code = "died:" + err_name(e)
     finally:
         signal.signal(signal.SIGINT, signal.default_int_handler)
     lm = pathlib.Path(expdir) / "last_model.txt"
